@@ -788,7 +788,7 @@ src/git/repository.rs::find_repository#0 rev-parse parsed
 src/git/repository.rs::find_repository#1 rev-parse parsed
 src/git/status.rs::get_staged_filenames#0 diff parsed
 src/git/status.rs::get_staged_and_unstaged_filenames#0 status parsed
-src/git/status.rs::status#0 status parsed
+src/git/status.rs::status_impl#0 status parsed
 src/git/sync_authorship.rs::fetch_authorship_notes#0 ls-remote parsed
 src/git/sync_authorship.rs::fetch_authorship_notes#1 ? unparsed   # stdout only goes to debug_log
 src/git/sync_authorship.rs::push_authorship_notes#0 ? unparsed
